@@ -334,8 +334,6 @@ def rename_locals(fn, pinned, include_args=False):
             n.name = ren[n.name]
         elif isinstance(n, (ast.Global, ast.Nonlocal)):
             n.names = [ren.get(x, x) for x in n.names]
-        elif isinstance(n, ast.keyword) and include_args and False:
-            pass
     return fn
 
 
